@@ -10,7 +10,7 @@ CONSTANTS
   CCiphers <- OnlyAES
   SCiphers <- OnlyAES
   CmdModes = {TRUE}
-  Shapes = {"full", "resume"}
+  Shapes = {"full", "resume", "resume1", "pre00", "pre10", "pre01", "pre11"}
   SameLists = TRUE
   RelayBudget = 1
   AllowAbort = FALSE
